@@ -24,7 +24,7 @@ def load_corpus(stream):
                 cases.append(('c%s_%d' % (f.replace('.txt', ''), ln), ops))
     return cases
 
-def run_tie2(prop, P, tier, rng, replay=None):
+def run_tie2(prop, P, tier, rng, replay=None, facts=None):
     cov = dict(evaluations=0, distinct_nontrivial=0, rule='', samples=[], streams={})
     problems = []; known = []
     specs = P.get('streams', [])
@@ -60,8 +60,15 @@ def run_tie2(prop, P, tier, rng, replay=None):
                                  dict(kind='unproved', stage='harness-build', cfg=cfg, profile=profile, output=out[-4000:])))
                 continue
             env = spec.get('env', lambda cfg, profile: {})(cfg, profile)
-            impl, model, crashes, stray = vlib.run_both(stream, cases, exe, '%s-%s-%s-%s' % (prop, stream, cfg, profile), extra_env=env,
+            run_cases = spec['prep'](cases, cfg, profile) if 'prep' in spec else cases
+            impl, model, crashes, stray = vlib.run_both(stream, run_cases, exe, '%s-%s-%s-%s' % (prop, stream, cfg, profile), extra_env=env,
                                                         timeout=spec.get('timeout', {}).get(tier, 900))
+            if 'model_map' in spec:
+                try:
+                    model = dict((cid, spec['model_map'](mo, facts or {})) for cid, mo in model.items())
+                except Exception as ex:
+                    problems.append(('model-map', 'cannot relate the atomic sites of the model to the source: %s' % ex,
+                                     dict(kind='unproved', stage='tie2-site-map', detail=str(ex))))
             scov['configs'].append('%s/%s' % (cfg, profile))
             cov['evaluations'] += len(cases)
             casemap = dict(cases)
@@ -229,3 +236,130 @@ PROPS['C05'] = dict(
     streams=[LAYOUT_STREAM], side_obligations=c05_side, facts_view=c05_facts,
     assumptions=['rustc lays out repr(C) structs by extend+pad_to_align and keeps the layout under repr(transparent)/MaybeUninit/ManuallyDrop (validated on every run by the layout stream against Layout::for_value and the allocator)',
                  'core::alloc::Layout arithmetic as modelled in coq/theories/Layout.v', '64-bit target'])
+
+
+# ============================================================================
+# mech stream (C01 C03 C04 C08 C09 C10 C12 C15, and the footprint half of C02/C16)
+# ============================================================================
+import mechgen
+
+ORD_CODE = {'Rlx': 0, 'Rel': 1, 'Acq': 2, 'AcqRel': 3, 'SC': 4}
+METHOD_CODE = {'load': 1, 'fetch_add': 2, 'fetch_sub': 3}
+SITE_KEYS = [('Arc::strong_count', 'load'), ('Arc::clone', 'fetch_add'), ('Arc::count', 'load'),
+             ('Arc::drop_inner', 'fetch_sub'), ('Arc::drop_inner', 'load')]
+
+def site_codes(facts):
+    """model site number -> the (op, ordering) code the hook reports, from the translated source"""
+    sites = (facts.get('atomics') or {}).get('sites', [])
+    out = {}
+    for i, (fn, meth) in enumerate(SITE_KEYS):
+        m = [s for s in sites if s['fn'] == fn and s['method'] == meth]
+        if len(m) != 1 or len(m[0]['orderings']) != 1 or m[0]['orderings'][0] not in ORD_CODE:
+            raise ValueError('atomic site %s.%s not found exactly once in the source' % (fn, meth))
+        out[i] = METHOD_CODE[meth] * 10 + ORD_CODE[m[0]['orderings'][0]]
+    return out
+
+def mech_model_map(obs, facts):
+    sc = site_codes(facts)
+    res = []
+    for o in obs:
+        st, rets, ev = mechgen.split_obs(o)
+        if st is None:
+            res.append(o); continue
+        out = []
+        for e in mechgen.parse_events(ev):
+            if e[0] == 5: out += [5, sc[e[1]], e[2]]
+            elif e[0] == '?': out += list(e[1])
+            else: out += list(e)
+        res.append([st] + rets + [mechgen.SEP] + out)
+    return res
+
+def mech_prep(cases, cfg, profile):
+    d = 1 if profile == 'debug' else 0
+    return [(cid, [[100, d]] + ops) for cid, ops in cases]
+
+BAD_EVENTS = {7: 'block released with a layout different from the one it was allocated with',
+              8: 'release of a pointer that is not a live allocation', 9: 'destructor ran on a value that is not live (double drop or garbage)',
+              11: 'read of a value that is not live (use after free / uninitialised)'}
+
+def oracle_mech(ops, io, ctx):
+    """C01/C04 stated directly on what the instrumented implementation did (independent of the model)."""
+    dtors = set()
+    for k, o in enumerate(io[:-1]):
+        st, rets, ev = mechgen.split_obs(o)
+        for e in mechgen.parse_events(ev):
+            if e[0] in BAD_EVENTS: return 'op %d %s: %s' % (k, ops[k] if k < len(ops) else '?', BAD_EVENTS[e[0]])
+            if e[0] == 1:
+                if e[1] in dtors: return 'op %d: value %d destroyed twice' % (k, e[1])
+                dtors.add(e[1])
+        if 9999 in rets and st == 0: return 'op %d %s: a handle points outside every known block' % (k, ops[k] if k < len(ops) else '?')
+        if 777 in rets and st == 3: return 'op %d: a declined unwrap returned a different handle' % k
+    fin = io[-1]
+    if len(fin) % 2 == 1 or 12 in fin[len(fin) - 2:len(fin) - 1]:
+        pass
+    i = 0
+    while i + 1 < len(fin):
+        alive, owners = fin[i], fin[i + 1]
+        if alive == 12: return '%d handles point into no known block at the end of the history' % owners
+        if alive == 1 and owners == 0: return 'block %d leaked: still allocated although no owning handle is left' % (i // 2)
+        if alive == 0 and owners > 0: return 'block %d was released although %d owning handles still refer to it' % (i // 2, owners)
+        i += 2
+    return None
+
+def nontrivial_mech(ops, io):
+    kinds = set(op[0] for op in ops)
+    return len(kinds & {23, 24, 34, 35, 36, 41, 43, 44, 45, 38, 40}) >= 2
+
+def dist_mech(cases):
+    d = dict(op={}, lengths=dict(min=10 ** 9, max=0, total=0), with_callbacks=0, with_panic=0, with_conversion=0)
+    for cid, ops in cases:
+        for op in ops: d['op'][str(op[0])] = d['op'].get(str(op[0]), 0) + 1
+        d['lengths']['min'] = min(d['lengths']['min'], len(ops)); d['lengths']['max'] = max(d['lengths']['max'], len(ops)); d['lengths']['total'] += len(ops)
+        codes = set(op[0] for op in ops)
+        if 41 in codes: d['with_callbacks'] += 1
+        if 43 in codes: d['with_panic'] += 1
+        if 23 in codes: d['with_conversion'] += 1
+    return d
+
+def gen_mech_for(focuses):
+    def gen(tier, rng):
+        n = 400 if tier != 'thorough' else 12000
+        cases = []
+        for i in range(n):
+            ln = rng.randrange(8, 120 if tier != 'thorough' else 200)
+            cases.append(('M%d' % i, mechgen.gen_history(rng, ln, focus=focuses[i % len(focuses)])))
+        return cases
+    return gen
+
+def mech_stream(focuses):
+    return dict(stream='mech', gen=gen_mech_for(focuses), oracle=oracle_mech, nontrivial=nontrivial_mech, distribution=dist_mech,
+                prep=mech_prep, model_map=mech_model_map,
+                rule='random histories of 8..120 (thorough: ..200) handle operations from one PRNG over all 23 handle kinds, 12 constructors, 26 conversion edges, 5 callback forms with nested bodies, injected panics and ~6% malformed operations (tools/mechgen.py); observation per op = status, results, destructor/clone/alloc/dealloc/atomic events; non-trivial = uses at least two of {conversion, borrow-promotion, make_mut/make_unique, unwrap_or_clone, callback, panic, replace/assign, uninit write}; distinct = distinct op lists',
+                cfgs=dict(quick=[('cfg_default', 'debug'), ('cfg_default', 'release')],
+                          thorough=[('cfg_default', 'debug'), ('cfg_default', 'release'), ('cfg_nostd', 'debug'), ('cfg_nostd', 'release'), ('cfg_all', 'debug'), ('cfg_all', 'release')]))
+
+def atomics_side(facts):
+    """closed world of atomic sites + orderings (shared by every property that relies on the counter protocol)"""
+    A = facts.get('atomics') or {}
+    out = []
+    try:
+        sc = site_codes(facts); ok = True; det = 'five modelled sites found: %s' % sc
+    except Exception as ex:
+        ok = False; det = str(ex)
+    out.append(('atomic_sites_are_the_five_modelled', ok and len(A.get('sites', [])) == 5 and not A.get('other'),
+                det + '; %d sites, other accesses to the counter: %s' % (len(A.get('sites', [])), A.get('other'))))
+    out.append(('counter_initialised_to_one', all(i.get('value') == '1' for i in A.get('inits', [])) and len(A.get('inits', [])) >= 3, 'inits: %s' % A.get('inits')))
+    return out
+
+MECH_ASSUME = ['Rust move/drop/unwind semantics as transcribed in coq/theories/Mech.v (ManuallyDrop, mem::forget, ptr::read = no drop; scope ends = explicit drops); validated on every run by the mech stream',
+               'the model and the implementation are compared on sampled histories (tie 2), the theorems hold for all histories of the model']
+
+def mech_prop(focuses, extra_side=None):
+    def side(facts):
+        return atomics_side(facts) + (extra_side(facts) if extra_side else [])
+    return dict(streams=[mech_stream(focuses)], side_obligations=side,
+                facts_view=lambda facts: dict(atomic_sites=[(s['fn'], s['method'], s['orderings']) for s in (facts.get('atomics') or {}).get('sites', [])]),
+                assumptions=MECH_ASSUME)
+
+PROPS['C01'] = mech_prop([None, {'thin', 'with'}, {'union'}, {'unique'}, {'raw'}, {'uninit'}, None])
+PROPS['C04'] = mech_prop([None, {'with'}, {'thin', 'with'}, {'union'}, None])
